@@ -46,6 +46,9 @@ func c07Layouts(r *Rng, doc string) []string {
 
 // responseShape converts a response into what encoding/json (UseNumber) must decode its JSON form to.
 func responseShape(v interface{}) interface{} {
+	if ggql.IsNil(v) {
+		return nil // a typed nil pointer handed back by a resolver is JSON null
+	}
 	switch t := v.(type) {
 	case int:
 		return json.Number(strconv.Itoa(t))
